@@ -1,5 +1,5 @@
 CHECK = {
-        "obligations": ["C20.c20_doc", "C20.c20_reject", "C20.c20_ssv_partial", "C20.gen_ssv", "C20.unescape_render", "CC.replaceAll_two", "C20.methods_exact", "C20.gen_structure", "C20.gen_numeric", "C20.gen_keepalive",
+        "obligations": ["C20.gen_udp_local_addr", "C20.c20_doc", "C20.c20_reject", "C20.c20_ssv_partial", "C20.gen_ssv", "C20.unescape_render", "CC.replaceAll_two", "C20.methods_exact", "C20.gen_structure", "C20.gen_numeric", "C20.gen_keepalive",
                         "C20.gen_pubkey", "C20.gen_altname", "C20.gen_tables", "C20.keepAlive_doc", "C20.timeout_doc",
                         "C20.numConn_doc", "C20.mockList_doc", "C20.transport_doc", "C20.pinned_keepalive", "C20.pinned_doc_false",
                         "C20.gen_parse", "C20.gen_main_derefs", "C20.c20_load_total", "C20.pinned_null_crashes",
